@@ -363,7 +363,7 @@ class DRec(Ty):
         return "drec:" + self.name
 
     def rec(self):
-        f = dict(self.fields)
+        f = {k: t for k, t in self.fields.items() if not t.heap}
         for o in self.optional:
             f["has_" + o] = Bool
         return Rec(self.name, **f)
